@@ -2,6 +2,7 @@ package work
 
 import (
 	"reflect"
+	"strings"
 	"unsafe"
 
 	secp "github.com/bytemare/secp256k1"
@@ -134,6 +135,14 @@ func (w *walker) walk(v reflect.Value, depth int) {
 		for i := 0; i < len(t); i++ {
 			w.mix(uint64(t[i]))
 		}
+		if opaqueType(e.Type()) {
+			// the operating system's randomness reader: the state behind it is
+			// crypto/rand's own (and everybody's), not the library's
+			if e.Kind() == reflect.Pointer && !e.IsNil() {
+				w.mix(uint64(e.Pointer()))
+			}
+			return
+		}
 		w.walk(e, depth+1)
 	case reflect.Func, reflect.Chan, reflect.UnsafePointer:
 		if v.IsNil() {
@@ -144,11 +153,24 @@ func (w *walker) walk(v reflect.Value, depth int) {
 	}
 }
 
+// opaqueType reports types whose values are identified, not walked: the
+// crypto/rand reader and what it is made of.
+func opaqueType(t reflect.Type) bool {
+	for t.Kind() == reflect.Pointer {
+		t = t.Elem()
+	}
+	p := t.PkgPath()
+	return p == "crypto/rand" || strings.HasPrefix(p, "crypto/internal/")
+}
+
 func deepHash(ptr reflect.Value, collect bool) (uint64, []MemRange) {
 	w := &walker{h: 0xcbf29ce484222325, seen: map[uintptr]bool{}, collect: collect}
 	w.walk(ptr.Elem(), 0)
 	return w.h, w.ranges
 }
+
+// rawCheckMax is the largest variable (bytes) that is compared at every step.
+const rawCheckMax = 16 << 10
 
 // CaptureGlobals snapshots every package-level variable.
 func CaptureGlobals() *Globals {
@@ -166,6 +188,12 @@ func CaptureGlobals() *Globals {
 		var view []byte
 		if sz > 0 {
 			view = unsafe.Slice((*byte)(pv.UnsafePointer()), sz)
+		}
+		if sz > rawCheckMax {
+			// a large table (precomputed multiples, say) is compared through the
+			// deep hash after every call only: a byte comparison at every
+			// scheduling step would cost milliseconds per step
+			view = nil
 		}
 		g.live = append(g.live, view)
 		g.raw = append(g.raw, append([]byte(nil), view...))
